@@ -289,6 +289,18 @@ func init() {
 			x.orderAll = cbool(x, a[0], "flag")
 			return nil
 		},
+		// vParam(name, quickDefault): a size parameter of the harness; checks.json may
+		// override it per tier ("params"), the native replay receives the same values
+		"vParam": func(x *Exec, fr *frame, fn *ssa.Function, a []Value) Value {
+			name := cstr(x, a[0], "parameter name")
+			def := cint(x, a[1], "parameter default")
+			val := def
+			if v, ok := x.eng.params[name]; ok {
+				val = v
+			}
+			x.eng.noteParam(name, val, def)
+			return x.ts.BV(64, uint64(int64(val)))
+		},
 		"vTier": func(x *Exec, fr *frame, fn *ssa.Function, a []Value) Value {
 			if x.eng.tier == "thorough" {
 				return x.ts.BV(64, 1)
